@@ -275,7 +275,7 @@ Proof.
   assert (W : forallb (fun r0 : nat * row_entries => Nat.eqb (fst r0) c) (map (fun e => (c, e)) (e :: l)) = true).
   { apply forallb_forall. intros x Hx. apply in_map_iff in Hx. destruct Hx as [y [<- _]]. apply Nat.eqb_refl. }
   assert (S : map snd (map (fun e : row_entries => (c, e)) (e :: l)) = e :: l).
-  { rewrite map_map. simpl. f_equal. induction l as [|x l IH]; [reflexivity|]. simpl. f_equal. exact IH. }
+  { rewrite map_map. simpl. f_equal. apply map_id. }
   unfold to_coo. change (map (fun e0 : row_entries => (c, e0)) (e :: l))
     with ((c, e) :: map (fun e0 : row_entries => (c, e0)) l) at 1.
   cbv iota beta. rewrite W, S. rewrite map_length. reflexivity.
@@ -352,7 +352,7 @@ Proof.
 Qed.
 
 Lemma strip_keyed (l : row_entries) : strip (map (fun cv : nat * Z => (0, fst cv, snd cv)) l) = l.
-Proof. unfold strip. rewrite map_map. induction l as [|[c v] l IH]; [reflexivity|]. simpl. rewrite IH. reflexivity. Qed.
+Proof. unfold strip. rewrite map_map. rewrite <- (map_id l) at 2. apply map_ext. intros [c v]. reflexivity. Qed.
 
 Definition has_nonzero (m : matrix) : Prop := exists i j, get m i j <> 0%Z.
 
@@ -392,7 +392,7 @@ Proof.
       - pose proof (enum_from_nth 0 (nth i m []) j) as H. simpl in H. apply H.
         rewrite (rect_nth_length c m i R Hi). exact Hj.
       - simpl. apply negb_true_iff. apply Z.eqb_neq. exact Hnz. }
-    rewrite E in Hin. destruct Hin.
+    destruct (eq_ind _ (fun l => In (0, j, get m i j) l) Hin _ E).
   - intros e He. apply in_concat in He. destruct He as [l [Hl He]]. apply in_map_iff in Hl.
     destruct Hl as [row [<- Hrow]]. unfold f in He. apply in_map_iff in He. destruct He as [cv [<- Hcv]].
     apply nz_row_in in Hcv. destruct Hcv as [Hcv _]. unfold e_row, e_col. simpl. split; [reflexivity|].
@@ -405,4 +405,226 @@ Proof.
     replace (Nat.leb 0 j' && Nat.ltb j' (0 + c)) with true
       by (symmetry; apply andb_true_iff; split; [apply Nat.leb_le|apply Nat.ltb_lt]; lia).
     rewrite Nat.sub_0_r. reflexivity.
+Qed.
+
+(* ================================================================== C. the constructor *)
+(* errcheck under the default profile: 'empty' is ignored and skipped, the other six kinds
+   raise, in sorted order of their names *)
+Module ErrDefault.
+Import String.
+Local Open Scope string_scope.
+Lemma errcheck_default v :
+  errcheck default_profile v [] =
+    if test_obsdup v then Ok (EvRaise "obsdup")
+    else if test_obsmdsize v then Ok (EvRaise "obsmdsize")
+    else if test_obssize v then Ok (EvRaise "obssize")
+    else if test_sampdup v then Ok (EvRaise "sampdup")
+    else if test_sampmdsize v then Ok (EvRaise "sampmdsize")
+    else if test_sampsize v then Ok (EvRaise "sampsize")
+    else Ok EvNone.
+Proof.
+  unfold errcheck. rewrite sorted_registry.
+  cbn [test_loop dget registry String.eqb Ascii.eqb Bool.eqb].
+  change (is_ignored default_profile "empty") with true.
+  change (is_ignored default_profile "obsdup") with false.
+  change (is_ignored default_profile "obsmdsize") with false.
+  change (is_ignored default_profile "obssize") with false.
+  change (is_ignored default_profile "sampdup") with false.
+  change (is_ignored default_profile "sampmdsize") with false.
+  change (is_ignored default_profile "sampsize") with false.
+  change (handle_error default_profile "obsdup") with (EvRaise "obsdup").
+  change (handle_error default_profile "obsmdsize") with (EvRaise "obsmdsize").
+  change (handle_error default_profile "obssize") with (EvRaise "obssize").
+  change (handle_error default_profile "sampdup") with (EvRaise "sampdup").
+  change (handle_error default_profile "sampmdsize") with (EvRaise "sampmdsize").
+  change (handle_error default_profile "sampsize") with (EvRaise "sampsize").
+  destruct (test_empty v); reflexivity.
+Qed.
+End ErrDefault.
+
+(* what the constructor makes of errcheck's answer under the default profile *)
+Definition any_test (v : view) : bool :=
+  test_obsdup v || test_obsmdsize v || test_obssize v || test_sampdup v || test_sampmdsize v || test_sampsize v.
+
+Lemma errcheck_default_cases v :
+  (any_test v = true /\ exists k, errcheck default_profile v [] = Ok (EvRaise k)) \/
+  (any_test v = false /\ errcheck default_profile v [] = Ok EvNone).
+Proof.
+  rewrite ErrDefault.errcheck_default. unfold any_test.
+  destruct (test_obsdup v); [left; split; [reflexivity|eexists; reflexivity]|].
+  destruct (test_obsmdsize v); [left; split; [reflexivity|eexists; reflexivity]|].
+  destruct (test_obssize v); [left; split; [reflexivity|eexists; reflexivity]|].
+  destruct (test_sampdup v); [left; split; [reflexivity|eexists; reflexivity]|].
+  destruct (test_sampmdsize v); [left; split; [reflexivity|eexists; reflexivity]|].
+  destruct (test_sampsize v); [left; split; [reflexivity|eexists; reflexivity]|].
+  right. split; reflexivity.
+Qed.
+
+Lemma distinct_le l : length (distinct l) <= length l.
+Proof.
+  induction l as [|x l IH]; simpl; [lia|]. destruct (zmem x l); simpl; lia.
+Qed.
+
+Lemma distinct_dup l : zdup l = true -> length (distinct l) < length l.
+Proof.
+  induction l as [|x l IH]; simpl; [discriminate|]. intros H.
+  destruct (zmem x l) eqn:E; simpl.
+  - pose proof (distinct_le l). lia.
+  - simpl in H. specialize (IH H). lia.
+Qed.
+
+Lemma dup_test_true l : zdup l = true -> negb (Nat.eqb (length l) (length (distinct l))) = true.
+Proof.
+  intros H. apply negb_true_iff. apply Nat.eqb_neq. pose proof (distinct_dup l H). lia.
+Qed.
+
+Lemma nodup_test_false l : NoDup l -> negb (Nat.eqb (length l) (length (distinct l))) = false.
+Proof. intros H. rewrite (distinct_NoDup l H), Nat.eqb_refl. reflexivity. Qed.
+
+Lemma norm_md_keeps md n l : md = Some l -> length l <> n -> norm_md md n = Some l.
+Proof.
+  intros -> H. unfold norm_md. replace (Nat.eqb (length l) n) with false by (symmetry; apply Nat.eqb_neq; exact H).
+  rewrite !andb_false_r. reflexivity.
+Qed.
+
+(* the condition of the property: duplicated ids, an id count that differs from the matrix
+   dimension, or a metadata count that differs from the id count *)
+Definition malformed (nr nc : nat) (oids sids : list Z) (omd smd : option (list mdin)) : Prop :=
+  zdup oids = true \/ zdup sids = true \/ length oids <> nr \/ length sids <> nc
+  \/ (exists l, omd = Some l /\ length l <> length oids) \/ (exists l, smd = Some l /\ length l <> length sids).
+
+Lemma malformed_triggers nr nc oids sids omd smd : malformed nr nc oids sids omd smd ->
+  any_test (view_of nr nc oids sids (norm_md omd (length oids)) (norm_md smd (length sids))) = true.
+Proof.
+  unfold any_test, test_obsdup, test_obsmdsize, test_obssize, test_sampdup, test_sampmdsize, test_sampsize, view_of.
+  cbn [v_rows v_cols v_oids v_sids v_omd v_smd].
+  intros [H|[H|[H|[H|[(l & E & H)|(l & E & H)]]]]].
+  - rewrite (dup_test_true _ H). reflexivity.
+  - rewrite (dup_test_true _ H). rewrite !orb_true_r. reflexivity.
+  - replace (Nat.eqb nr (length oids)) with false by (symmetry; apply Nat.eqb_neq; lia).
+    simpl. rewrite !orb_true_r. reflexivity.
+  - replace (Nat.eqb nc (length sids)) with false by (symmetry; apply Nat.eqb_neq; lia).
+    simpl. rewrite !orb_true_r. reflexivity.
+  - rewrite (norm_md_keeps omd (length oids) l E H). simpl.
+    destruct (Nat.eqb nr (length l)) eqn:E1; simpl.
+    + apply Nat.eqb_eq in E1. replace (Nat.eqb nr (length oids)) with false by (symmetry; apply Nat.eqb_neq; lia).
+      simpl. rewrite !orb_true_r. reflexivity.
+    + rewrite !orb_true_r. reflexivity.
+  - rewrite (norm_md_keeps smd (length sids) l E H). simpl.
+    destruct (Nat.eqb nc (length l)) eqn:E1; simpl.
+    + apply Nat.eqb_eq in E1. replace (Nat.eqb nc (length sids)) with false by (symmetry; apply Nat.eqb_neq; lia).
+      simpl. rewrite !orb_true_r. reflexivity.
+    + rewrite !orb_true_r. reflexivity.
+Qed.
+
+Theorem malformed_rejected_lemma inp oids sids omd smd ty nr nc m :
+  to_dense inp (length oids, length sids) = ROk (nr, nc, m) ->
+  malformed nr nc oids sids omd smd ->
+  construct default_profile inp oids sids omd smd ty = RErr E_TABLE.
+Proof.
+  intros D M. unfold construct. rewrite D.
+  destruct (errcheck_default_cases (view_of nr nc oids sids (norm_md omd (length oids)) (norm_md smd (length sids))))
+    as [[_ [k Hk]]|[Hf _]].
+  - rewrite Hk. reflexivity.
+  - rewrite (malformed_triggers _ _ _ _ _ _ M) in Hf. discriminate.
+Qed.
+
+(* well-formed input is accepted and yields exactly the described table *)
+Definition md_valid (md : option (list mdin)) (n : nat) : Prop :=
+  match md with None => True | Some l => length l = n /\ forallb is_other l = false /\ existsb is_other l = false end.
+
+Lemma cast_md_valid md n : md_valid md n -> exists o, cast_md (norm_md md n) = ROk o.
+Proof.
+  destruct md as [l|]; simpl; [|intros _; exists None; reflexivity].
+  intros (Hl & _ & Ho).
+  destruct (negb (Nat.eqb (length l) 0) && forallb falsy l && Nat.eqb (length l) n); [exists None; reflexivity|].
+  unfold cast_md. destruct (forallb is_none l); [exists None; reflexivity|]. rewrite Ho. eexists. reflexivity.
+Qed.
+
+Lemma wellformed_quiet nr nc oids sids omd smd :
+  NoDup oids -> NoDup sids -> length oids = nr -> length sids = nc ->
+  md_valid omd (length oids) -> md_valid smd (length sids) ->
+  any_test (view_of nr nc oids sids (norm_md omd (length oids)) (norm_md smd (length sids))) = false.
+Proof.
+  intros No Ns Ho Hs Vo Vs.
+  unfold any_test, test_obsdup, test_obsmdsize, test_obssize, test_sampdup, test_sampmdsize, test_sampsize, view_of.
+  cbn [v_rows v_cols v_oids v_sids v_omd v_smd].
+  rewrite (nodup_test_false _ No), (nodup_test_false _ Ns). subst nr nc. rewrite !Nat.eqb_refl. simpl.
+  assert (A : forall md n, md_valid md n ->
+              match option_map (@length mdin) (norm_md md n) with Some k => negb (Nat.eqb n k) | None => false end = false).
+  { intros md n V. destruct md as [l|]; [|reflexivity]. destruct V as (Hl & _). simpl.
+    destruct (negb (Nat.eqb (length l) 0) && forallb falsy l && Nat.eqb (length l) n); [reflexivity|].
+    simpl. rewrite Hl, Nat.eqb_refl. reflexivity. }
+  rewrite (A omd _ Vo), (A smd _ Vs). reflexivity.
+Qed.
+
+Theorem wellformed_accepted_lemma inp oids sids omd smd ty m :
+  to_dense inp (length oids, length sids) = ROk (length oids, length sids, m) ->
+  NoDup oids -> NoDup sids -> md_valid omd (length oids) -> md_valid smd (length sids) ->
+  exists o s, cast_md (norm_md omd (length oids)) = ROk o /\ cast_md (norm_md smd (length sids)) = ROk s /\
+    construct default_profile inp oids sids omd smd ty = ROk (mkT oids sids m o s ty).
+Proof.
+  intros D No Ns Vo Vs. destruct (cast_md_valid _ _ Vo) as [o Eo]. destruct (cast_md_valid _ _ Vs) as [s Es].
+  exists o, s. split; [exact Eo|]. split; [exact Es|].
+  unfold construct. rewrite D.
+  destruct (errcheck_default_cases (view_of (length oids) (length sids) oids sids
+              (norm_md omd (length oids)) (norm_md smd (length sids)))) as [[Ht _]|[_ Hq]].
+  - rewrite (wellformed_quiet _ _ _ _ _ _ No Ns eq_refl eq_refl Vo Vs) in Ht. discriminate.
+  - rewrite Hq, Es, Eo. reflexivity.
+Qed.
+
+(* a metadata entry that is neither a mapping nor None: rejected, unless every entry is falsy *)
+Lemma cast_md_other l : existsb is_other l = true -> cast_md (Some l) = RErr E_TABLE.
+Proof.
+  intros H. unfold cast_md.
+  assert (forallb is_none l = false).
+  { apply existsb_exists in H. destruct H as [e [He Ho]]. apply not_true_is_false. intros F.
+    rewrite forallb_forall in F. specialize (F e He). destruct e; discriminate. }
+  rewrite H0, H. reflexivity.
+Qed.
+
+Lemma norm_md_truthy l n : existsb (fun e => negb (falsy e)) l = true -> norm_md (Some l) n = Some l.
+Proof.
+  intros H. unfold norm_md.
+  assert (forallb falsy l = false).
+  { apply existsb_exists in H. destruct H as [e [He Hf]]. apply not_true_is_false. intros F.
+    rewrite forallb_forall in F. rewrite (F e He) in Hf. discriminate. }
+  rewrite H0, andb_false_r. reflexivity.
+Qed.
+
+Theorem nonmapping_rejected_lemma p inp oids sids omd smd ty l :
+  (omd = Some l \/ smd = Some l) -> existsb is_other l = true -> existsb (fun e => negb (falsy e)) l = true ->
+  (exists c, construct p inp oids sids omd smd ty = RErr c) /\
+  (forall nr nc m, to_dense inp (length oids, length sids) = ROk (nr, nc, m) ->
+     construct default_profile inp oids sids omd smd ty = RErr E_TABLE).
+Proof.
+  intros Hmd Ho Ht.
+  assert (Core : forall q, (exists c, construct q inp oids sids omd smd ty = RErr c) /\
+     (forall nr nc m, to_dense inp (length oids, length sids) = ROk (nr, nc, m) ->
+        (forall k, errcheck q (view_of nr nc oids sids (norm_md omd (length oids)) (norm_md smd (length sids))) [] <> Raise k) ->
+        construct q inp oids sids omd smd ty = RErr E_TABLE)).
+  { intros q. unfold construct.
+    destruct (to_dense inp (length oids, length sids)) as [[[nr nc] m]|c] eqn:D; [|split; [eexists; reflexivity|discriminate]].
+    assert (X : match cast_md (norm_md smd (length sids)), cast_md (norm_md omd (length oids)) with
+                | ROk s, ROk o => ROk (mkT oids sids m o s ty)
+                | RErr c, _ => RErr c
+                | _, RErr c => RErr c
+                end = RErr E_TABLE).
+    { destruct Hmd as [E|E]; subst.
+      - rewrite (norm_md_truthy l _ Ht), (cast_md_other l Ho).
+        destruct (cast_md (norm_md smd (length sids))) as [s|c] eqn:Es; [reflexivity|].
+        destruct (norm_md smd (length sids)) as [l'|]; [|discriminate]. unfold cast_md in Es.
+        destruct (forallb is_none l'); [discriminate|]. destruct (existsb is_other l'); [|discriminate].
+        inversion Es. reflexivity.
+      - rewrite (norm_md_truthy l _ Ht), (cast_md_other l Ho). reflexivity. }
+    destruct (errcheck q _ []) as [[| | | |]|e] eqn:Ee.
+    - rewrite X. split; [eexists; reflexivity|]. intros ? ? ? H _. reflexivity.
+    - rewrite X. split; [eexists; reflexivity|]. intros ? ? ? H _. reflexivity.
+    - rewrite X. split; [eexists; reflexivity|]. intros ? ? ? H _. reflexivity.
+    - rewrite X. split; [eexists; reflexivity|]. intros ? ? ? H _. reflexivity.
+    - split; [eexists; reflexivity|]. intros ? ? ? H _. reflexivity.
+    - split; [eexists; reflexivity|]. intros nr' nc' m' H N. inversion H; subst. exfalso. exact (N e Ee). }
+  split; [apply (Core p)|]. intros nr nc m D. apply (proj2 (Core default_profile) nr nc m D).
+  intros k E. destruct (errcheck_default_cases (view_of nr nc oids sids (norm_md omd (length oids)) (norm_md smd (length sids))))
+    as [[_ [k' Hk]]|[_ Hk]]; rewrite Hk in E; discriminate.
 Qed.
